@@ -97,6 +97,7 @@ static void canon_key(const MCKind *k, uint64_t *k1, uint64_t *k2)
     static uint8_t buf[16384];
     size_t n = k->canon(buf, sizeof(buf));
     if (n > sizeof(buf)) engine_error("canon buffer overflow");
+    verif_unpoison(buf, n);   /* images of heap blocks the library left partly unwritten: the engine may hash them, the library may not use them */
     *k1 = fnv1a(buf, n, FNV_INIT);
     *k2 = fnv1a(buf, n, 0x9ae16a3b2f90404fULL) ^ (uint64_t)n;
 }
